@@ -8,18 +8,19 @@ open S3V S3V.Gen.Errors S3V.ErrorDoc S3V.ErrorDocSpec
 
 /-! ## escape / unescape -/
 
-/-- the five bytes quick-xml `escape` rewrites -/
-def special (c : UInt8) : Bool := c = 60 || c = 62 || c = 38 || c = 39 || c = 34
+/-- the bytes `xml::ser::text` rewrites: the five of quick-xml `escape`, and CR -/
+def special (c : UInt8) : Bool := c = 60 || c = 62 || c = 38 || c = 39 || c = 34 || c = 13
 
 theorem escByte_of_not_special {c : UInt8} (h : special c = false) : escByte c = [c] := by
   simp only [special, Bool.or_eq_false_iff, decide_eq_false_iff_not] at h
-  obtain ⟨⟨⟨⟨h1, h2⟩, h3⟩, h4⟩, h5⟩ := h
-  simp [escByte, h1, h2, h3, h4, h5]
+  obtain ⟨⟨⟨⟨⟨h1, h2⟩, h3⟩, h4⟩, h5⟩, h6⟩ := h
+  simp [escByte, h1, h2, h3, h4, h5, h6]
 
 theorem escByte_cases (c : UInt8) :
     (c = 60 ∧ escByte c = [38, 108, 116, 59]) ∨ (c = 62 ∧ escByte c = [38, 103, 116, 59])
     ∨ (c = 38 ∧ escByte c = [38, 97, 109, 112, 59]) ∨ (c = 39 ∧ escByte c = [38, 97, 112, 111, 115, 59])
-    ∨ (c = 34 ∧ escByte c = [38, 113, 117, 111, 116, 59]) ∨ (special c = false ∧ escByte c = [c]) := by
+    ∨ (c = 34 ∧ escByte c = [38, 113, 117, 111, 116, 59]) ∨ (c = 13 ∧ escByte c = [38, 35, 49, 51, 59])
+    ∨ (special c = false ∧ escByte c = [c]) := by
   by_cases h1 : c = 60
   · subst h1; left; exact ⟨rfl, by decide⟩
   by_cases h2 : c = 62
@@ -30,44 +31,51 @@ theorem escByte_cases (c : UInt8) :
   · subst h4; right; right; right; left; exact ⟨rfl, by decide⟩
   by_cases h5 : c = 34
   · subst h5; right; right; right; right; left; exact ⟨rfl, by decide⟩
-  · have hs : special c = false := by simp [special, h1, h2, h3, h4, h5]
-    right; right; right; right; right
+  by_cases h6 : c = 13
+  · subst h6; right; right; right; right; right; left; exact ⟨rfl, by decide⟩
+  · have hs : special c = false := by simp [special, h1, h2, h3, h4, h5, h6]
+    right; right; right; right; right; right
     exact ⟨hs, escByte_of_not_special hs⟩
 
-/-- no byte of an escaped byte is `<`, and none is CR unless the byte was -/
-theorem escByte_mem {c b : UInt8} (hb : b ∈ escByte c) : b ≠ 60 ∧ (b = 13 → c = 13) := by
-  rcases escByte_cases c with ⟨_, h⟩ | ⟨_, h⟩ | ⟨_, h⟩ | ⟨_, h⟩ | ⟨_, h⟩ | ⟨hs, h⟩
+/-- no byte of an escaped byte is `<`, and none is CR -/
+theorem escByte_mem {c b : UInt8} (hb : b ∈ escByte c) : b ≠ 60 ∧ b ≠ 13 := by
+  rcases escByte_cases c with ⟨_, h⟩ | ⟨_, h⟩ | ⟨_, h⟩ | ⟨_, h⟩ | ⟨_, h⟩ | ⟨_, h⟩ | ⟨hs, h⟩
   all_goals rw [h] at hb
-  · simp at hb; rcases hb with rfl | rfl | rfl | rfl <;> exact ⟨by decide, fun h => absurd h (by decide)⟩
-  · simp at hb; rcases hb with rfl | rfl | rfl | rfl <;> exact ⟨by decide, fun h => absurd h (by decide)⟩
-  · simp at hb; rcases hb with rfl | rfl | rfl | rfl | rfl <;> exact ⟨by decide, fun h => absurd h (by decide)⟩
-  · simp at hb; rcases hb with rfl | rfl | rfl | rfl | rfl | rfl <;> exact ⟨by decide, fun h => absurd h (by decide)⟩
-  · simp at hb; rcases hb with rfl | rfl | rfl | rfl | rfl | rfl <;> exact ⟨by decide, fun h => absurd h (by decide)⟩
+  · simp at hb; rcases hb with rfl | rfl | rfl | rfl <;> decide
+  · simp at hb; rcases hb with rfl | rfl | rfl | rfl <;> decide
+  · simp at hb; rcases hb with rfl | rfl | rfl | rfl | rfl <;> decide
+  · simp at hb; rcases hb with rfl | rfl | rfl | rfl | rfl | rfl <;> decide
+  · simp at hb; rcases hb with rfl | rfl | rfl | rfl | rfl | rfl <;> decide
+  · simp at hb; rcases hb with rfl | rfl | rfl | rfl | rfl <;> decide
   · simp at hb; subst hb
-    refine ⟨?_, fun h => h⟩
-    intro h60; subst h60; simp [special] at hs
+    constructor
+    · intro h60; subst h60; simp [special] at hs
+    · intro h13; subst h13; simp [special] at hs
 
-theorem escape_mem {s : Bytes} {b : UInt8} (hb : b ∈ escape s) : b ≠ 60 ∧ (b = 13 → 13 ∈ s) := by
+/-- escaped text contains neither `<` nor a carriage return, whatever the text was -/
+theorem escape_mem {s : Bytes} {b : UInt8} (hb : b ∈ escape s) : b ≠ 60 ∧ b ≠ 13 := by
   induction s with
   | nil => simp [escape] at hb
   | cons c r ih =>
     simp only [escape, List.mem_append] at hb
     rcases hb with hb | hb
-    · have := escByte_mem hb
-      exact ⟨this.1, fun h => by simp [this.2 h]⟩
-    · have := ih hb
-      exact ⟨this.1, fun h => by simp [this.2 h]⟩
+    · exact escByte_mem hb
+    · exact ih hb
+
+/-- `&#13;` is read as U+000D -/
+theorem resolve_cr : resolveEntity [35, 49, 51] = some [13] := by decide
 
 /-- reading an escaped byte followed by anything: the byte comes back -/
 theorem unescapeGo_escByte (c : UInt8) (t : Bytes) :
     unescapeGo (escByte c ++ t) none = (unescapeGo t none).map (c :: ·) := by
-  rcases escByte_cases c with ⟨rfl, h⟩ | ⟨rfl, h⟩ | ⟨rfl, h⟩ | ⟨rfl, h⟩ | ⟨rfl, h⟩ | ⟨hs, h⟩
+  rcases escByte_cases c with ⟨rfl, h⟩ | ⟨rfl, h⟩ | ⟨rfl, h⟩ | ⟨rfl, h⟩ | ⟨rfl, h⟩ | ⟨rfl, h⟩ | ⟨hs, h⟩
   all_goals rw [h]
   · simp [unescapeGo, resolveEntity]
   · simp [unescapeGo, resolveEntity]
   · simp [unescapeGo, resolveEntity]
   · simp [unescapeGo, resolveEntity]
   · simp [unescapeGo, resolveEntity]
+  · simp [unescapeGo, resolve_cr]
   · have h38 : c ≠ 38 := by intro h38; subst h38; simp [special] at hs
     simp [unescapeGo, h38]
 
@@ -224,27 +232,26 @@ theorem errorXml_shape (name : Bytes) (e : S3Error) :
       ++ (element tCode name ++ (optElement tMessage e.message ++ (optElement tRequestId e.requestId ++ (closing ++ [])))) := by
   simp [errorXml, closing]
 
-theorem cr_escape {t : Bytes} (ht : (13 : UInt8) ∉ t) : (13 : UInt8) ∉ escape t :=
-  fun h => ht ((escape_mem h).2 rfl)
+theorem cr_escape (t : Bytes) : (13 : UInt8) ∉ escape t :=
+  fun h => (escape_mem h).2 rfl
 
-theorem cr_element {n t : Bytes} (hn : (13 : UInt8) ∉ n) (ht : (13 : UInt8) ∉ t) : (13 : UInt8) ∉ element n t := by
-  have ht' := cr_escape ht
+theorem cr_element {n : Bytes} (t : Bytes) (hn : (13 : UInt8) ∉ n) : (13 : UInt8) ∉ element n t := by
+  have ht' := cr_escape t
   simp [element, hn, ht']
 
-theorem cr_optElement {n : Bytes} {t : Option Bytes} (hn : (13 : UInt8) ∉ n) (ht : ∀ x, t = some x → (13 : UInt8) ∉ x) :
-    (13 : UInt8) ∉ optElement n t := by
+theorem cr_optElement {n : Bytes} (t : Option Bytes) (hn : (13 : UInt8) ∉ n) : (13 : UInt8) ∉ optElement n t := by
   cases t with
   | none => simp [optElement]
-  | some x => exact cr_element hn (ht x rfl)
+  | some x => exact cr_element x hn
 
-theorem cr_bodyOf {name : Bytes} {e : S3Error} (noDecl : Bool) (hn : (13 : UInt8) ∉ name)
-    (hm : ∀ x, e.message = some x → (13 : UInt8) ∉ x) (hr : ∀ x, e.requestId = some x → (13 : UInt8) ∉ x) :
-    (13 : UInt8) ∉ bodyOf name e noDecl := by
+/-- the body never contains a carriage return: the fixed parts have none and the text writer turns each
+    into a character reference -/
+theorem cr_bodyOf (name : Bytes) (e : S3Error) (noDecl : Bool) : (13 : UInt8) ∉ bodyOf name e noDecl := by
   have h0 : (13 : UInt8) ∉ xmlDecl := by decide
   have h1 : (13 : UInt8) ∉ tError := by decide
-  have h2 := cr_element (n := tCode) (by decide) hn
-  have h3 := cr_optElement (n := tMessage) (by decide) hm
-  have h4 := cr_optElement (n := tRequestId) (by decide) hr
+  have h2 := cr_element (n := tCode) name (by decide)
+  have h3 := cr_optElement (n := tMessage) e.message (by decide)
+  have h4 := cr_optElement (n := tRequestId) e.requestId (by decide)
   cases noDecl <;> simp [bodyOf, errorXml, h0, h1, h2, h3, h4]
 
 theorem skipDecl_bodyOf (name : Bytes) (e : S3Error) (noDecl : Bool) :
@@ -289,13 +296,11 @@ theorem optChild_requestId (name : Bytes) (msg rid : Option Bytes) (hr : ∀ x, 
 /-- the reader reads back code, message and request id from the document the model writes -/
 theorem parseErrorDoc_bodyOf (name : Bytes) (e : S3Error) (noDecl : Bool)
     (hn : xmlText name = true) (hm : ∀ x, e.message = some x → xmlText x = true)
-    (hr : ∀ x, e.requestId = some x → xmlText x = true)
-    (cn : (13 : UInt8) ∉ name) (cm : ∀ x, e.message = some x → (13 : UInt8) ∉ x)
-    (cr : ∀ x, e.requestId = some x → (13 : UInt8) ∉ x) :
+    (hr : ∀ x, e.requestId = some x → xmlText x = true) :
     parseErrorDoc (bodyOf name e noDecl)
       = some { code := name, message := e.message, requestId := e.requestId } := by
   have hnorm : normalizeEol (bodyOf name e noDecl) = bodyOf name e noDecl :=
-    normalizeEolGo_id (cr_bodyOf noDecl cn cm cr)
+    normalizeEolGo_id (cr_bodyOf name e noDecl)
   have hopen : stripPrefix ([60] ++ nError ++ [62]) (skipWs (errorXml name e))
       = some (element tCode name ++ (optElement tMessage e.message ++ (optElement tRequestId e.requestId ++ (closing ++ [])))) := by
     rw [errorXml_shape]
